@@ -710,6 +710,27 @@ func inF39(c *EWCase) bool {
 	if c.Op != "Div" || !d.IsFloat() {
 		return false
 	}
+	// the defect sits in the flat vector kernels: an operand that certainly needs an iterator (a pending
+	// lazy transposition, a stepped slice) keeps the call out of them, and zero divisors are asserted there
+	certainlyIter := func(l Layout) bool {
+		if l.Final != "" || l.IsCM() {
+			return false
+		}
+		for _, st := range l.Steps {
+			if st.Op == "T" && !isIdentity(st.Perm) {
+				return true
+			}
+			for _, x := range st.Step {
+				if x > 1 {
+					return true
+				}
+			}
+		}
+		return false
+	}
+	if prod(c.A.Shape) > 1 && nonUnit(c.A.Shape) >= 2 && (certainlyIter(c.A.L) || (c.B != nil && certainlyIter(c.B.L))) && c.Engine == "" {
+		return false
+	}
 	isZero := func(code int64) bool { return eqVal(decode(d, code), zeroOf(d)) }
 	switch c.Form {
 	case "TT":
